@@ -118,7 +118,9 @@ pub fn generate(rng: &mut Rng, thorough: bool) -> Vec<Case> {
     // which is an oracle here)
     let mut cs = vec![];
     let paths: Vec<&str> = vec!["/", "/a", "/webtransport/echo", "/p?q=1", "/p?", "/%20x/y?k=v&k2=%3F", "/a/b/c.d/", "/~user;x=1?a=b=c", "/very/long/"];
-    let names = ["origin", "user-agent", "authorization", "accept", "content-type", "x-custom", "a", "cookie", "accept-language", "x-very-long-header-name-that-goes-on-and-on"];
+    let names = ["origin", "user-agent", "authorization", "accept", "content-type", "x-custom", "a", "cookie", "accept-language", "x-very-long-header-name-that-goes-on-and-on",
+                 // every character a field name may contain besides letters, digits and '-' (RFC 9110 token)
+                 "x_trace_id", "x.build!tag~", "x#$%&'*+^`|", "9", "-"];
     let n = if thorough { 120 } else { 36 };
     for i in 0..n {
         let decision = (i % 5) as u64;
@@ -141,7 +143,7 @@ pub fn generate(rng: &mut Rng, thorough: bool) -> Vec<Case> {
             args.push(crate::b2s(&v));
         }
         for j in 0..nresp {
-            args.push(crate::b2s(&format!("x-resp-{}", j)));
+            args.push(crate::b2s(&if j == 0 { "x-resp-0".to_string() } else { "x_served.by!~".to_string() }));
             args.push(crate::b2s(if j == 0 { "value" } else { ":status" }));
         }
         cs.push(Case::new(673, args, ["accept", "accept-with-headers", "forbidden", "not-found", "too-many-requests"][decision as usize]));
